@@ -9,7 +9,7 @@ host="$1"; shift
 cmd="$1"
 cmd="${cmd//\/var\/tmp/$FAKE_REMOTE_ROOT}"
 printf 'ssh\t%s\t%s\n' "$host" "$(printf '%s' "$1" | tr '\n' ' ')" >> "$FAKE_LOG"
-if [ -n "$FAKE_RELAY_ORDER$FAKE_CUT" ] && [[ "$cmd" == *--doer* ]]; then exec python3 "$(dirname "$0")/relay.py" "$cmd"; fi
+if [ -n "$FAKE_RELAY_ORDER$FAKE_CUT$FAKE_KEY_LOG" ] && [[ "$cmd" == *--doer* ]]; then exec python3 "$(dirname "$0")/relay.py" "$cmd"; fi
 exec /bin/bash -c "$cmd"
 '''
 RELAY = r'''#!/usr/bin/env python3
@@ -64,7 +64,23 @@ def start_proxy(real_port):
         threading.Thread(target=pump, args=(b, a, direction == 'd2b'), daemon=True).start()
     threading.Thread(target=serve, daemon=True).start()
     return ls.getsockname()[1]
-p = subprocess.Popen(['/bin/bash', '-c', sys.argv[1]], stdout=subprocess.PIPE, stderr=subprocess.PIPE)
+KEYLOG = os.environ.get('FAKE_KEY_LOG')
+p = subprocess.Popen(['/bin/bash', '-c', sys.argv[1]], stdout=subprocess.PIPE, stderr=subprocess.PIPE, stdin=subprocess.PIPE if KEYLOG else None)
+if KEYLOG:
+    # what the boss writes to this doer's stdin: the first line is the session key; it is recorded and passed on
+    def feed():
+        first = True
+        try:
+            for line in iter(sys.stdin.buffer.readline, b''):
+                if first:
+                    with open(KEYLOG, 'ab') as f: f.write(line)
+                    first = False
+                p.stdin.write(line); p.stdin.flush()
+        except OSError:
+            pass
+        try: p.stdin.close()
+        except OSError: pass
+    threading.Thread(target=feed, daemon=True).start()
 qs = {'o': queue.Queue(), 'e': queue.Queue()}
 def reader(stream, k):
     for line in iter(stream.readline, b''):
